@@ -461,6 +461,41 @@ pub fn eval_case(case: &Case, st: &mut Stats) -> Vec<Fail> {
         Ok(Ok(t)) => t,
     };
     st.bump("ok");
+    // the Write-based entry point against a scripted sink: short writes must not change the bytes; an I/O error at
+    // the n-th write call (every n) must come back as a result, never as a panic, with a prefix of the output accepted
+    {
+        let mut sw = ScriptedWriter::new(3, None);
+        let r = catch(|| xot.html5().serialize_write(params.clone(), root, &mut sw));
+        st.evals += 1;
+        match r {
+            Ok(Ok(())) if sw.data == text.as_bytes() => {}
+            other => fails.push(Fail::new("write|short-writes-change-output", format!("{} [{}]: {:?} wrote {:?}", case.tree.show(), cfg, other.map(|r| r.map_err(|e| format!("{:?}", e))), String::from_utf8_lossy(&sw.data)))),
+        }
+        let mut count = ScriptedWriter::new(usize::MAX, None);
+        let _ = catch(|| xot.html5().serialize_write(params.clone(), root, &mut count));
+        for n in 0..count.calls {
+            let mut fw = ScriptedWriter::new(usize::MAX, Some(n));
+            let r = catch(|| xot.html5().serialize_write(params.clone(), root, &mut fw));
+            st.evals += 1;
+            st.bump("io_errors_injected");
+            match r {
+                Err(p) => {
+                    fails.push(Fail::new(format!("panic|io-error-in-writer|{}", panic_class(&p)), format!("{} [{}]: writer fails at call {}: {}", case.tree.show(), cfg, n, p)));
+                    break;
+                }
+                Ok(Ok(())) => {
+                    fails.push(Fail::new("write|io-error-swallowed", format!("{} [{}]: writer fails at call {} but the call answers Ok", case.tree.show(), cfg, n)));
+                    break;
+                }
+                Ok(Err(_)) => {
+                    if !text.as_bytes().starts_with(&fw.data) {
+                        fails.push(Fail::new("write|not-a-prefix-after-io-error", format!("{} [{}]: call {}: {:?}", case.tree.show(), cfg, n, String::from_utf8_lossy(&fw.data))));
+                        break;
+                    }
+                }
+            }
+        }
+    }
     if has_pi_gt(&case.tree) {
         fails.push(Fail::new("pi|gt-not-refused", format!("{} -> {:?}", case.tree.show(), text)));
         return fails;
